@@ -278,6 +278,27 @@ def run_job(plan, j, tier):
     base = ['cbmc', gb, '--object-bits', '12', '--json-ui'] + j.extra_cbmc
     if j.unwind is not None:
         base += ['--unwind', str(j.unwind), '--unwinding-assertions']
+    if j.unwind_files:
+        # per-loop bounds selected by the source file of the loop (e.g. the fixed-size loops of std::array): loop ids are read from the binary
+        rc, out, err, _ = run(['cbmc', gb, '--show-loops'], timeout=300, mem_gb=j.mem)
+        us = []
+        cur = None
+        for ln in out.splitlines():
+            mm = re.match(r'Loop (\S+):$', ln.strip())
+            if mm:
+                cur = mm.group(1)
+                continue
+            if cur and ln.strip().startswith('file '):
+                for pat, bnd in j.unwind_files.items():
+                    if pat in ln or pat in cur:
+                        us.append('%s:%d' % (cur, bnd))
+                        break
+                cur = None
+        if rc != 0:
+            R.reason = 'cbmc --show-loops failed: ' + (err + out)[-800:]
+            return R
+        if us:
+            base += ['--unwindset', ','.join(us)]
     R.gb = gb
     R.base_cmd = base
     # staggered back-end portfolio: first definitive answer wins
